@@ -458,3 +458,42 @@ Theorem C03_entry_interval_sound_ereal :
       /\ (fst iv <= dot cot gs)%Q /\ (dot cot gs <= snd iv)%Q.
 Proof. exact entry_interval_sound_ereal. Qed.
 Print Assumptions C03_entry_interval_sound_ereal.
+
+(** * Which weight tensors are one autograd leaf (Model/LeafAlias.v) *)
+Require Import Fggs.Model.LeafAlias Fggs.Proofs.LeafAlias_proofs.
+
+(** the storage-partition check of the correspondence (stream "paths") is exact: verdict 0 iff two factors share
+    storage after a constructor / loader / copy path only if the caller had made them share it before *)
+Theorem C03_alias_check_exact :
+  forall pre post,
+  alias_check (pre, post) = 0 <->
+  length pre = length post /\
+  forall p q, In p (combine pre post) -> In q (combine pre post) -> snd p = snd q -> fst p = fst q.
+Proof. exact alias_check_exact. Qed.
+Print Assumptions C03_alias_check_exact.
+
+(** ... so a path accepted by it keeps tensors the caller supplied separately in separate storages *)
+Theorem C03_alias_check_preserves_separate_storage :
+  forall pre post, alias_check (pre, post) = 0 -> NoDup pre -> NoDup post.
+Proof. exact alias_check_preserves_nodup. Qed.
+Print Assumptions C03_alias_check_preserves_separate_storage.
+
+(** per-leaf accumulation: when no two factors share storage, factor.weights.grad is the factor's own derivative *)
+Theorem C03_separate_storage_own_gradient :
+  forall R (o : sr_ops R), sr_ring o ->
+  forall fs : list (nat * R), NoDup (map fst fs) -> observed_grads o fs = map snd fs.
+Proof. exact @observed_grads_unshared. Qed.
+Print Assumptions C03_separate_storage_own_gradient.
+
+(** ... and two factors in ONE storage both show the sum of their derivatives (naturals: 1, 2 -> 3, 3) *)
+Theorem C03_shared_storage_sum :
+  forall R (o : sr_ops R), sr_ring o ->
+  forall s a b, observed_grads o [(s, a); (s, b)] = [add o a b; add o a b].
+Proof. exact @observed_grads_shared_pair. Qed.
+Print Assumptions C03_shared_storage_sum.
+
+Theorem C03_shared_storage_witness :
+  observed_grads nat_ops_example [(0, 1); (0, 2)] = [3; 3]
+  /\ observed_grads nat_ops_example [(0, 1); (0, 2)] <> map snd [(0, 1); (0, 2)].
+Proof. exact observed_grads_shared_witness. Qed.
+Print Assumptions C03_shared_storage_witness.
